@@ -315,6 +315,87 @@ func runC07(c *Ctx) {
 	checkLockReleased(c, all)
 	checkLoopCarriedCopy(c, all)
 	checkNilFuncValues(c, all)
+	checkTokenizerScans(c)
+}
+
+// checkTokenizerScans (super-linear shape): a bufio.Scanner split function is called once per token with the whole
+// unconsumed buffer. Its work must be proportional to the bytes it consumes. A loop that searches the same
+// (loop-invariant) buffer once per iteration - one full scan per marker, keeping the earliest match - costs the whole
+// buffered remainder for every token, however short the token: many short tokens behind one long one are quadratic.
+func checkTokenizerScans(c *Ctx) {
+	P, R := c.P, c.R
+	// split functions: closures handed to (*bufio.Scanner).Split anywhere in the module
+	var splits []*ssa.Function
+	for _, fn := range P.ModuleFuncs() {
+		core.EachInstr(fn, func(in ssa.Instruction) {
+			call, ok := in.(*ssa.Call)
+			if !ok || call.Call.StaticCallee() == nil || core.FullName(call.Call.StaticCallee()) != "(*bufio.Scanner).Split" {
+				return
+			}
+			arg := core.StripConv(call.Call.Args[1])
+			if mc, ok := arg.(*ssa.MakeClosure); ok {
+				splits = append(splits, mc.Fn.(*ssa.Function))
+			} else if f, ok := arg.(*ssa.Function); ok {
+				splits = append(splits, f)
+			}
+		})
+	}
+	if !R.Anchor(len(splits) >= 1, "C07.cplx", "a bufio.Scanner split function in the module (json.NewCommentReader)") {
+		return
+	}
+	searches := map[string]bool{"bytes.Index": true, "bytes.IndexByte": true, "bytes.IndexAny": true, "bytes.IndexRune": true, "bytes.LastIndex": true,
+		"bytes.Contains": true, "bytes.Count": true, "strings.Index": true, "strings.IndexByte": true, "strings.IndexAny": true, "strings.Contains": true, "strings.Count": true}
+	nCalls := 0
+	for _, sp := range splits {
+		var bad []string
+		for fn := range P.Reachable(sp) {
+			if fn.Blocks == nil {
+				continue
+			}
+			for _, hdr := range fn.Blocks {
+				isHeader := false
+				for _, pr := range hdr.Preds {
+					if hdr.Dominates(pr) {
+						isHeader = true
+					}
+				}
+				if !isHeader {
+					continue
+				}
+				inLoop := loopBlocks(fn, hdr)
+				for b := range inLoop {
+					for _, in := range b.Instrs {
+						call, ok := in.(*ssa.Call)
+						if !ok || call.Call.StaticCallee() == nil || !searches[core.FullName(call.Call.StaticCallee())] {
+							continue
+						}
+						nCalls++
+						// loop-invariant haystack: defined outside the loop (a parameter, or an instruction of a block outside)
+						hay := core.StripConv(call.Call.Args[0])
+						invariant := true
+						if hi, isInstr := hay.(ssa.Instruction); isInstr && inLoop[hi.Block()] {
+							invariant = false
+						}
+						if invariant {
+							bad = append(bad, fmt.Sprintf("%s at %s scans the loop-invariant buffer %s on every iteration", core.CalleeName(&call.Call), P.InstrPos(call), describeOperand(hay)))
+						}
+					}
+				}
+			}
+		}
+		sort.Strings(bad)
+		R.Check(len(bad) == 0, "C07.cplx", core.QualName(sp)+"|scan-proportional-to-consumption", P.Pos(sp.Pos()),
+			"no function of the tokenizer re-scans an unchanged buffer inside a loop",
+			"the tokenizer "+strings.Join(bad, "; ")+": every token costs a scan of the whole buffered remainder for each marker, only the earliest match is used - many short tokens behind a long one take quadratic time", nil)
+	}
+	R.Extra["tokenizer_search_calls_in_loops"] = nCalls
+}
+
+func describeOperand(v ssa.Value) string {
+	if p := core.Path(v); !strings.HasPrefix(p, "%") {
+		return p
+	}
+	return v.Name()
 }
 
 // checkNilFuncValues: a function value selected by a switch/if without a default stays nil on the unmatched path; when
